@@ -369,6 +369,12 @@ def units_c05(tier):
         other = "V2C" if fam == "V1" else "V1"
         us.append(EmitAfterReconfigure(fam, False, other))
         us.append(EmitAfterReconfigure(fam, True, other))
+    # LARGE shapes (a chunk size or cap that only acts on long lists): one request far above the enumerated sizes
+    big = 70 if tier == "quick" else 300
+    us.append(Emit("V2C", "multiget", big))
+    us.append(Emit("V2C", "multigetnext", big))
+    us.append(Emit("V2C", "multiset", big))
+    us.append(Emit("V2C", "bulkget", big, m="any", ns=3))
     return us
 
 
